@@ -116,6 +116,37 @@ theorem C10_total_correct (T : Tables) (edition : Nat) (ds : List Nat) (h : ∃ 
     | abort => exact Or.inr (Or.inr rfl)
     | fuel => exact absurd hc (hT f hf)
 
+/-- **The fuel is only a bound.**  An answer of the template builder that is not "out of fuel" is the answer at
+every larger recursion bound: template or refusal, nothing in the model depends on the bound itself.  With
+`C10_terminates`: for every list whose regulation expansion exists the outcome of building the template is
+well defined. -/
+theorem C10_fuel_irrelevant (T : Tables) (edition : Nat) (ds : List Nat) (f : Nat)
+    (h : createTemplate T f edition ds ≠ .error .fuel) :
+    ∀ g, f ≤ g → createTemplate T g edition ds = createTemplate T f edition ds := by
+  intro g hg
+  obtain ⟨k, rfl⟩ : ∃ k, g = f + k := ⟨g - f, by omega⟩
+  have he : expandList T f 0 none (ds.map (mkNode T)) ≠ .error .fuel →
+      expandList T (f + k) 0 none (ds.map (mkNode T)) = expandList T f 0 none (ds.map (mkNode T)) := by
+    intro hx
+    rcases expandList_mono T 0 (ds.map (mkNode T)) f k with h1 | h1
+    · exact absurd h1 hx
+    · exact h1.symm
+  unfold createTemplate at h ⊢
+  by_cases hv : (!descsValid T none ds) = true
+  · simp only [hv, if_true]
+  · simp only [hv, Bool.false_eq_true, if_false] at h ⊢
+    cases hc : checkSequence T ds with
+    | none => rfl
+    | some delayed =>
+      simp only [hc] at h ⊢
+      have hx : expandList T f 0 none (ds.map (mkNode T)) ≠ .error .fuel := by
+        intro hh
+        apply h
+        unfold expandSequence
+        rw [hh]
+      unfold expandSequence
+      rw [he hx]
+
 /-- templates naming an element that is in no table (and not described by 2 06 YYY), or a number
 that is not a descriptor at all, are refused before anything is expanded -/
 theorem C10_rejects_unknown (T : Tables) (fuel edition : Nat) (ds : List Nat)
